@@ -1,15 +1,14 @@
-SPECIFICATION HSpec
+SPECIFICATION DSpec
 CONSTANTS
   ArgPaths <- PathsF
   OpenFlags <- FlagsH
   Datas <- DatasH
-  ReadLens = {3}
+  ReadLens = {4}
   Seeks <- SeeksH
-  RdCounts = {0}
+  RdCounts = {}
   MaxHandles = 2
-  MaxSize = 3
+  MaxSize = 4
   MaxDepth = 1
-  GenDepth = 0
-INVARIANTS EmitState TreeOK
+  GenDepth = 4
+INVARIANTS EmitLeaf TreeOK
 CHECK_DEADLOCK FALSE
-VIEW hview
